@@ -648,10 +648,11 @@ fn op_kind(op: &Op) -> String {
             "update/{}",
             if cross_read(set) { "multi-assign-rhs-reads-assigned-column" } else if set.len() > 1 { "multi-assign-independent" } else { "single-assign" }
         ),
+        // the implementation has two execution paths, chosen exactly by these parameters
+        // (`can_use_create_plan`): the plan-based one and the join-based one
         Op::Merge(m) => format!(
-            "merge/{}/{}",
-            if m.src_cols.len() == 4 { "full-schema" } else { "partial-schema" },
-            if m.indexed && m.use_index { "btree-key" } else { "no-index" },
+            "merge/{}",
+            if m.src_cols.len() == 4 && !(m.indexed && m.use_index) && m.by_source == "keep" && m.matched != "do_nothing" { "plan-based-path" } else { "join-based-path" },
         ),
     }
 }
@@ -807,7 +808,7 @@ fn diff_kind(case: &Case, before: &[Row], missing: &[Row], extra: &[Row]) -> Str
             let null_src = m.src.iter().any(|s| s[ski].is_null());
             let clauses = format!("{}+{}+{}", m.matched.split(':').next().unwrap(), m.not_matched, m.by_source.split(':').next().unwrap());
             if extra.is_empty() && !missing.is_empty() && null_src && missing.iter().all(|r| r[ki].is_null() && !before.contains(r)) {
-                return format!("{clauses}/null-key-source-row-not-inserted");
+                return "null-key-source-row-not-inserted".to_string();
             }
             let mut kinds = vec![];
             if !missing.is_empty() {
@@ -1004,8 +1005,9 @@ pub fn run(ctx: &Ctx) -> Outcome {
     };
     for frags in tables(3, quick) {
         let n: usize = frags.iter().map(|f| f.len()).sum();
-        // quick: all tables of <=2 rows in both layouts, 3-row tables in one fragment only
-        if quick && n == 3 && frags.len() > 1 {
+        // quick: all tables of <=2 rows in both layouts; 3-row tables in one fragment and with pairwise
+        // distinct rows only
+        if quick && n == 3 && (frags.len() > 1 || frags[0][0] == frags[0][1] || frags[0][1] == frags[0][2]) {
             continue;
         }
         // merge_insert is enumerated on tables whose v column is constant (the payload does not
